@@ -95,6 +95,10 @@ impl<K, V> HashMap<K, V> {
     pub fn is_empty(&self) -> (r: bool)
         ensures r == (self@.dom() =~= Set::<K>::empty()),
     { unimplemented!() }
+    #[verifier::external_body]
+    pub fn contains_key(&self, k: &K) -> (r: bool)
+        ensures r == self@.contains_key(*k),
+    { unimplemented!() }
 }
 /// parking_lot::Mutex as plain ownership: lock() is a mutable borrow of the content
 pub struct Mutex<T> { pub inner: T }
